@@ -22,4 +22,9 @@ def obligations(tier):
         for k3 in range(9):
             obs.append(Ob(f"C13.group/{m}/n3/k3={k3}", "c13", "c_group2", {"VF_MODE": m, "VF_N": 3, "VF_K3": k3}, t, FN,
                           f"3 entities: first two of any kind (symbolic), third of kind #{k3}; mode {m}"))
+    firsts = [0, 7, 9, 11] if tier == "quick" else range(14)
+    for g in firsts:
+        obs.append(Ob(f"C13.pipe/first={g}", "pipe", "c_group_pipe", {"VF_G1": g}, t, ["whole pipeline (harness/pipe.py) incl. parser.py process_set"],
+                      f"three different catalogued statements, first = #{g}, others symbolic among 14 (7 entity kinds, SET x = 1 / SET a ON / SET name / SET y 2, DROP TABLE, commented table, GO): "
+                      "flat vs grouped: every entity in exactly one bucket, order kept, comments gathered"))
     return obs
